@@ -250,6 +250,9 @@ func c17OffList(cf c17Conf) string {
 	return strings.Join(s, ",")
 }
 
+// c17DirtyRel: the document that carries an unsaved edit in mode "change-dirty"
+const c17DirtyRel = "zoo1.lua"
+
 func c17Observe(c *Ctx, files map[string]string, mode string, cf c17Conf, tag string) (c17View, *Workspace, error) {
 	f := map[string]string{}
 	for k, v := range files {
@@ -259,7 +262,7 @@ func c17Observe(c *Ctx, files map[string]string, mode string, cf c17Conf, tag st
 	switch mode {
 	case "init":
 		opts.Init = cf.initOptions()
-	case "change":
+	case "change", "change-dirty":
 		opts.Init = c17AllOn().initOptions()
 	case "json":
 		f["luahelper.json"] = cf.jsonFile()
@@ -278,7 +281,16 @@ func c17Observe(c *Ctx, files map[string]string, mode string, cf c17Conf, tag st
 		return nil, nil, fmt.Errorf("%s", msg)
 	}
 	defer srv.Close()
-	if mode == "change" {
+	if mode == "change-dirty" {
+		// one document is open with an unsaved edit that has a syntax error when the settings arrive
+		srv.DidOpen(ws.URI(c17DirtyRel), f[c17DirtyRel])
+		srv.DidChangeFull(ws.URI(c17DirtyRel), 2, f[c17DirtyRel]+"\nlocal broken = (\n")
+		if err := srv.Fence(); err != nil {
+			ws.Remove()
+			return nil, nil, err
+		}
+	}
+	if mode == "change" || mode == "change-dirty" {
 		// the first configuration notification is ignored by design
 		srv.Notify("workspace/didChangeConfiguration", c17AllOn().settings())
 		srv.Notify("workspace/didChangeConfiguration", cf.settings())
@@ -437,6 +449,9 @@ func runC17(c *Ctx) {
 			continue
 		}
 		jobs = append(jobs, job{cf, "init"}, job{cf, "change"})
+		if len(jobs)%3 == 0 {
+			jobs = append(jobs, job{cf, "change-dirty"})
+		}
 		if len(cf.IgnoreErr) != 1 || (cf.IgnoreErr[0] != "(" && cf.IgnoreErr[0] != "[" && cf.IgnoreErr[0] != "*") {
 			jobs = append(jobs, job{cf, "json"})
 		}
@@ -446,7 +461,11 @@ func runC17(c *Ctx) {
 		cf := j.cf
 		c.Eval(1)
 		files := zoo
-		b := base[j.mode]
+		bmode := j.mode
+		if bmode == "change-dirty" {
+			bmode = "change"
+		}
+		b := base[bmode]
 		if cf.IgnoreFile != nil {
 			// analysis-ignore: the baseline is the all-enabled run on the workspace without those files
 			files2 := map[string]string{}
@@ -455,7 +474,7 @@ func runC17(c *Ctx) {
 					files2[rel] = txt
 				}
 			}
-			bv, bws, err := c17Observe(c, files2, j.mode, all, fmt.Sprintf("c17b%d", ji))
+			bv, bws, err := c17Observe(c, files2, bmode, all, fmt.Sprintf("c17b%d", ji))
 			if err != nil {
 				c.Inconclusive("baseline run failed: " + err.Error())
 				return
@@ -490,6 +509,23 @@ func runC17(c *Ctx) {
 			return
 		}
 		want := c17Expect(b, cf, 0)
+		if j.mode == "change-dirty" {
+			// the document with the unsaved edit shows its buffer's diagnostics; what is asserted for it: when the settings
+			// exclude syntax errors for that file (master switch, type 1, an ignore pattern), none is shown
+			excluded := !cf.Master || (len(cf.Flags) > 1 && !cf.Flags[1]) || c17Excluded(c17DirtyRel, cf.IgnoreErr) || c17Excluded(c17DirtyRel, cf.IgnoreFile)
+			if excluded {
+				c.Count("unsaved_syntax_error_excluded_by_settings", 1)
+				for _, k := range got[c17DirtyRel] {
+					if c17Type(k) == 1 {
+						c.Report("unsaved-buffer-syntax-error-shown-although-excluded|"+c17OffList(cf), fmt.Sprintf("configuration %s arrives while %s has an unsaved edit with a syntax error: the view still shows %q", cf.Label, c17DirtyRel, k),
+							map[string]interface{}{"conf": cf, "mode": j.mode})
+						break
+					}
+				}
+			}
+			delete(want, c17DirtyRel)
+			delete(got, c17DirtyRel)
+		}
 		missing, extra := c17Diff(want, got)
 		nd := 0
 		for _, ks := range got {
